@@ -436,7 +436,8 @@ pub fn redim_programs() -> Vec<(Prog, String)> {
 }
 
 /// The ways control flow can go past a DIM without executing it (and, last, the baseline that executes it).
-pub const BYPASSES: [&str; 6] = ["GOTO over it", "IF branch not taken", "CASE not taken", "WHILE body never entered", "FOR body never entered", "executed"];
+pub const BYPASSES: [&str; 12] = ["GOTO over it", "IF branch not taken", "CASE not taken", "WHILE body never entered", "FOR body never entered", "executed",
+    "ELSEIF block not taken (the IF branch runs)", "ELSEIF block not taken (the ELSE branch runs)", "ELSE block not taken", "CASE ELSE not taken", "DO WHILE body never entered", "IF block inside a WHILE body never entered"];
 
 /// A declaration that control flow goes past without executing it: records and arrays with literal bounds
 /// exist all the same (they are allocated when the module or subprogram starts) and behave as declared;
@@ -489,6 +490,28 @@ pub fn bypassed_dim_programs() -> Vec<(Prog, String)> {
                     }
                     3 => body.push(b.s(K::While(var("Z%"), decl))),
                     4 => body.push(b.s(K::For { var: var("I%"), from: num(1), to: var("Z%"), step: None, body: decl, next_var: false })),
+                    6 | 7 => {
+                        // Z% = 0: with `Z% = 0` as the first condition the IF branch runs, with `Z% = 5` the ELSE branch
+                        let first = b.print(vec![st("first")]);
+                        let last = b.print(vec![st("last")]);
+                        let c1 = Expr::Bin(BinOp::Eq, Box::new(var("Z%")), Box::new(num(if bi == 6 { 0 } else { 5 })));
+                        let c2 = Expr::Bin(BinOp::Eq, Box::new(var("Z%")), Box::new(num(2)));
+                        body.push(b.s(K::If { arms: vec![(c1, vec![first]), (c2, decl)], els: Some(vec![last]), single_line: false }));
+                    }
+                    8 => {
+                        let first = b.print(vec![st("first")]);
+                        let c1 = Expr::Bin(BinOp::Eq, Box::new(var("Z%")), Box::new(num(0)));
+                        body.push(b.s(K::If { arms: vec![(c1, vec![first])], els: Some(decl), single_line: false }));
+                    }
+                    9 => {
+                        let zero = b.print(vec![st("zero")]);
+                        body.push(b.s(K::Select { subject: var("Z%"), cases: vec![(vec![CaseExpr::Simple(num(0))], vec![zero])], els: Some(decl) }));
+                    }
+                    10 => body.push(b.s(K::Do(DoKind::WhileTop, var("Z%"), decl))),
+                    11 => {
+                        let inner = b.s(K::If { arms: vec![(num(1), decl)], els: None, single_line: false });
+                        body.push(b.s(K::While(var("Z%"), vec![inner])));
+                    }
                     _ => body.extend(decl),
                 }
                 body.push(b.assign(var("Q"), Expr::Num("3.75".into())));
